@@ -108,3 +108,12 @@ def cases(tier, seed, ctx=None):
             head = b"POST " + raw + b" HTTP/1.1\r\nContent-Length: 2\r\n\r\n"
             nm = name if name != b"%3F" else b"?"
             yield ("slot", [regs, [G.Construct, G.Feed(head + b"hi"), G.Turn], [ver, []], [15, nm, 2, len(head)]], "names-beyond-latin1")
+    # whole-body registrations asked for with other methods than POST (DELETE, OPTIONS, GET, PUT with a body): the slot waits for the
+    # body all the same
+    for m in (b"DELETE", b"OPTIONS", b"GET", b"PUT", b"HEAD", b"TRACE"):
+        regs = [[b"up", 0, 2, 1, rng.range(0, 3)], [b"now", 0, 3, 0, 1]]
+        body = b"0123456789"
+        for name in (b"up", b"now"):
+            head = m + b" /" + name + b" HTTP/1.1\r\nContent-Length: 10\r\n\r\n"
+            for segs in ([head, body], [head + body[:4], body[4:]], [head + body]):
+                yield ("slot", [regs, [G.Construct] + [G.Feed(x) for x in segs] + [G.Turn], [ver, []], [15, name, 10, len(head)]], "other-methods")
